@@ -253,7 +253,13 @@ func TestVerifC05_SlabLongLines(t *testing.T) {
 			copy(text[p2:], pat)
 			fwd := rapid.Bool().Draw(t, "fwd")
 			withPos := rapid.Bool().Draw(t, "withPos")
+			// the line is held as bytes (what fzf does with an ASCII line) or as characters: which
+			// algorithm evaluates it depends on its length alone
+			asBytes := rapid.Bool().Draw(t, "asBytes")
 			cs := util.RunesToChars(append([]rune{}, text...))
+			if asBytes {
+				cs = util.ToChars([]byte(string(text)))
+			}
 			got, gotPos := FuzzyMatchV2(false, false, fwd, &cs, pat, withPos, slab)
 			ref := util.RunesToChars(append([]rune{}, text...))
 			var want Result
@@ -266,10 +272,10 @@ func TestVerifC05_SlabLongLines(t *testing.T) {
 			} else {
 				want, wantPos = FuzzyMatchV2(false, false, fwd, &ref, pat, withPos, nil)
 			}
-			key += fmt.Sprintf("|%d,%s,%d,%d,%v,%v", tlen, string(pat), p1, p2, fwd, withPos)
+			key += fmt.Sprintf("|%d,%s,%d,%d,%v,%v,%v", tlen, string(pat), p1, p2, fwd, withPos, asBytes)
 			if got.Score != want.Score || got.End != want.End || (withPos && (got.Start != want.Start || !reflect.DeepEqual(derefPos(gotPos), derefPos(wantPos)))) {
-				t.Fatalf("call %d of a sequence on one slab (%s): line of %d characters, term %q, fwd=%v withPos=%v: result %v %v, but %s on an unused evaluation gives %v %v",
-					i, key, tlen, string(pat), fwd, withPos, got, derefPos(gotPos), which, want, derefPos(wantPos))
+				t.Fatalf("call %d of a sequence on one slab (%s): line of %d characters (held as bytes: %v), term %q, fwd=%v withPos=%v: result %v %v, but %s on an unused evaluation gives %v %v",
+					i, key, tlen, asBytes, string(pat), fwd, withPos, got, derefPos(gotPos), which, want, derefPos(wantPos))
 			}
 		}
 		vstat.Case("C05/slab-long-lines", key, crossed >= 1 && crossed < n, fmt.Sprintf("calls=%d", n))
